@@ -179,6 +179,10 @@ def addPhotons (target l : List Nat) : List Nat × List Nat :=
 def bufLen (pool : Nat → Option Buf) (b : Nat) : Nat :=
   match pool b with | some buf => buf.ids.length | none => 0
 
+/-- the task a buffer gets that leaves subgrid-direction i: traversal in the neighbour, or (direction
+INSIDE = absorbed packets) re-emission -/
+def fullKind (i a : Nat) : Kind := if 0 < i then .traverse a else .reemit a
+
 /-- second half of one iteration of the loop over output directions in
 PhotonTraversalTaskContext::execute: the packets `L` are added to the active buffer `a` of direction i
 (target subgrid `sub`, input direction `dir`, contents `old`; `old = []` for a buffer created in this
@@ -189,12 +193,11 @@ def fillDir (cfg : Cfg) (g i a sub dir : Nat) (old L : List Nat) (r : DirRes) (s
   if sp.1.length = BUFSZ then
     -- the buffer is full: a fresh buffer takes the rest, the full one gets a task
     if bufFree cfg s2 r.nb && taskFree cfg s2 r.nt then
-      let kind : Kind := if 0 < i then .traverse a else .reemit a
       if sp.2.isEmpty then
         -- the fresh buffer stays empty and is freed at once
-        some { s2 with tasks := upd s2.tasks r.nt (some ⟨kind, .pending⟩), active := upd2 s2.active g i none }
+        some { s2 with tasks := upd s2.tasks r.nt (some ⟨fullKind i a, .pending⟩), active := upd2 s2.active g i none }
       else
-        some { s2 with tasks := upd s2.tasks r.nt (some ⟨kind, .pending⟩),
+        some { s2 with tasks := upd s2.tasks r.nt (some ⟨fullKind i a, .pending⟩),
                        pool := upd s2.pool r.nb (some ⟨sub, dir, sp.2⟩),
                        active := upd2 s2.active g i (some r.nb) }
     else none
@@ -381,9 +384,8 @@ def step (cfg : Cfg) (s : State) : Label → Option State
     if (s.largest g).1 ≠ NDIR ∧ 0 < (s.largest g).2 ∧ !lockHeld cfg s (.sub g) ∧ taskFree cfg s t' then
       match s.active g (s.largest g).1 with
       | some b =>
-        let kind : Kind := if 0 < (s.largest g).1 then .traverse b else .reemit b
         let s1 : State := { s with active := upd2 s.active g (s.largest g).1 none,
-                                   tasks := upd s.tasks t' (some ⟨kind, .queued⟩) }
+                                   tasks := upd s.tasks t' (some ⟨fullKind (s.largest g).1 b, .queued⟩) }
         some { s1 with largest := upd s1.largest g (recomputeLargest s1 g) }
       | none => none
     else none
@@ -434,13 +436,29 @@ def batches (max : Nat) : Nat → Nat → List Nat
   | 0, _ => []
   | fuel + 1, left => if left = 0 ∨ max = 0 then [] else min max left :: batches max fuel (left - min max left)
 
-/-! ### The worker loop of one thread on top of the protocol -/
+/-! ### The worker loop of one thread on top of the protocol
 
-/-- control state of a thread in the `while (global_run_flag)` loop -/
+```
+uint_fast32_t current_index = _shared_queue->get_task(*_tasks);          -- start
+while (global_run_flag || current_index != NO_TASK) {                     -- top
+  if (current_index == NO_TASK) { premature_launch.execute(); current_index = scheduler.get_task(thread_id); }
+  while (current_index != NO_TASK) {                                      -- exec / post
+    execute; unlock; free; add the created tasks to the queues; current_index = scheduler.get_task(thread_id);
+  }
+  if (_buffers->is_empty() && num_photon_done.value() == _number_of_photons) global_run_flag = false;   -- check
+  else current_index = scheduler.get_task(thread_id);
+}
+```
+(the loop condition is the one of TaskBasedIonizationSimulation.cpp after the fix f78e960; the photon
+loop of TaskBasedRadiationHydrodynamicsSimulation.cpp still reads `while (global_run_flag)`, it has no
+continuous source and therefore no task that can be obtained after the flag was cleared, see
+`Props/C01.lean`, `after_termination_only_packet_free_tasks`). -/
+
+/-- control state of a thread -/
 inductive Th where
   /-- before the initial `_shared_queue->get_task` -/
   | start
-  /-- at the test `while (global_run_flag)` holding `cur` -/
+  /-- at the loop test holding `cur` -/
   | top (cur : Option Nat)
   /-- inside `execute` of task t -/
   | exec (t : Nat)
@@ -448,8 +466,8 @@ inductive Th where
   | post
   /-- inner loop left with NO_TASK: at the termination test -/
   | check
-  /-- left the loop holding `cur` -/
-  | exited (cur : Option Nat)
+  /-- left the loop (only possible without a task) -/
+  | exited
 deriving DecidableEq, Repr
 
 structure LState where
@@ -463,15 +481,15 @@ inductive LLabel where
   | main (l : Label)
   /-- initial `_shared_queue->get_task`: got a task or NO_TASK -/
   | startPoll (i : Nat) (got : Option Nat)
-  /-- `while (global_run_flag)` is false: leave -/
+  /-- loop test false (flag cleared and no task held): leave -/
   | topExit (i : Nat)
-  /-- flag true, holding a task: execute it -/
+  /-- holding a task: execute it -/
   | topGo (i : Nat)
-  /-- flag true, no task: (premature launch, separate label) then `scheduler.get_task` -/
+  /-- flag true, no task: `scheduler.get_task` (the premature launch before it is the label `prem`) -/
   | topPoll (i : Nat) (got : Option Nat)
   /-- `premature_launch.execute()` of a thread without a task -/
   | prem (i g t' : Nat)
-  /-- a commit step of the task the thread executes; `fin` = the task is finished by it -/
+  /-- a commit step of the task the thread executes -/
   | work (i : Nat) (l : Label)
   /-- move one created task to a queue -/
   | enq (i t : Nat)
@@ -483,25 +501,36 @@ inductive LLabel where
   | checkNo (i : Nat) (got : Option Nat)
 deriving Repr
 
-/-- the task a commit label belongs to, whether the label ends the task, and the tasks it leaves in
-`tasks_to_add[]` -/
-def workInfo : Label → Option (Nat × Bool × List Nat)
-  | .execSource t _ t' => some (t, true, [t'])
-  | .contGen t _ _ => some (t, false, [])
-  | .contOverflow t _ _ _ => some (t, false, [])
-  | .contFinish t _ => some (t, true, [])
-  | .flushOne t _ _ _ => some (t, false, [])
-  | .flushFinish t => some (t, true, [])
-  | .execTraverse t _ res => some (t, true, res.map (·.nt))
-  | .execReemit t _ t' => some (t, true, [t'])
+/-- the task a commit label belongs to and whether the label ends the task -/
+def workInfo : Label → Option (Nat × Bool)
+  | .execSource t _ _ => some (t, true)
+  | .contGen t _ _ => some (t, false)
+  | .contOverflow t _ _ _ => some (t, false)
+  | .contFinish t _ => some (t, true)
+  | .flushOne t _ _ _ => some (t, false)
+  | .flushFinish t => some (t, true)
+  | .execTraverse t _ _ => some (t, true)
+  | .execReemit t _ _ => some (t, true)
   | _ => none
-
-def acquireOpt (cfg : Cfg) (s : State) : Option Nat → Option State
-  | none => some s
-  | some t => step cfg s (.acquire t)
 
 def isPending (s : State) (t : Nat) : Bool :=
   match s.tasks t with | some ⟨_, .pending⟩ => true | _ => false
+
+/-- a queued flush task whose lock is free (such a task is in the shared queue; `TaskQueue::get_task`
+on the shared queue scans the whole queue under the queue lock and returns NO_TASK only if no task in
+it can be locked) -/
+def flushAvailable (cfg : Cfg) (s : State) : Bool :=
+  (List.range cfg.taskCap).any fun u =>
+    match s.tasks u with
+    | some ⟨.flush c, .queued⟩ => !lockHeld cfg s (.block c)
+    | _ => false
+
+/-- `scheduler.get_task` / `_shared_queue->get_task`: a task is taken with its lock, or NO_TASK is
+returned, which is possible only if no flush task could be taken (tasks in the per-thread queues can be
+missed: `try_get_task` gives up when the queue lock is busy) -/
+def poll (cfg : Cfg) (s : State) : Option Nat → Option State
+  | none => if flushAvailable cfg s then none else some s
+  | some t => step cfg s (.acquire t)
 
 def lstep (cfg : Cfg) (s : LState) : LLabel → Option LState
   | .main l =>
@@ -511,23 +540,23 @@ def lstep (cfg : Cfg) (s : LState) : LLabel → Option LState
     | _ => none
   | .startPoll i got =>
     match s.th i with
-    | .start => match acquireOpt cfg s.p got with
+    | .start => match poll cfg s.p got with
       | some p' => some { s with p := p', th := upd s.th i (.top got) }
       | none => none
     | _ => none
   | .topExit i =>
     match s.th i with
-    | .top cur => if s.p.run then none else some { s with th := upd s.th i (.exited cur) }
+    | .top none => if s.p.run then none else some { s with th := upd s.th i .exited }
     | _ => none
   | .topGo i =>
     match s.th i with
-    | .top (some t) => if s.p.run then some { s with th := upd s.th i (.exec t) } else none
+    | .top (some t) => some { s with th := upd s.th i (.exec t) }
     | _ => none
   | .topPoll i got =>
     match s.th i with
     | .top none =>
       if s.p.run then
-        match acquireOpt cfg s.p got with
+        match poll cfg s.p got with
         | some p' => some { s with p := p', th := upd s.th i (match got with | some t => .exec t | none => .check) }
         | none => none
       else none
@@ -541,12 +570,13 @@ def lstep (cfg : Cfg) (s : LState) : LLabel → Option LState
     | _ => none
   | .work i l =>
     match s.th i, workInfo l with
-    | .exec t, some (t0, fin, news) =>
+    | .exec t, some (t0, fin) =>
       if t = t0 then
         match step cfg s.p l with
         | some p' =>
           some { s with p := p', th := if fin then upd s.th i .post else s.th,
-                        mine := upd s.mine i (s.mine i ++ news.filter (fun u => isPending p' u && !isPending s.p u)) }
+                        mine := upd s.mine i (s.mine i ++
+                          (List.range cfg.taskCap).filter (fun u => isPending p' u && !isPending s.p u)) }
         | none => none
       else none
     | _, _ => none
@@ -561,7 +591,7 @@ def lstep (cfg : Cfg) (s : LState) : LLabel → Option LState
   | .innerPoll i got =>
     match s.th i with
     | .post => if (s.mine i).isEmpty then
-        match acquireOpt cfg s.p got with
+        match poll cfg s.p got with
         | some p' => some { s with p := p', th := upd s.th i (match got with | some t => .exec t | none => .check) }
         | none => none
       else none
@@ -576,7 +606,7 @@ def lstep (cfg : Cfg) (s : LState) : LLabel → Option LState
     match s.th i with
     | .check =>
       if poolEmpty cfg s.p ∧ s.p.done.length = cfg.N then none else
-      match acquireOpt cfg s.p got with
+      match poll cfg s.p got with
       | some p' => some { s with p := p', th := upd s.th i (.top got) }
       | none => none
     | _ => none
